@@ -111,3 +111,11 @@ Theorem free_gf_diag_C_partial : forall (e1 e2 beta : R) (i j : nat) (n : Z),
   if Nat.eqb i j then Cdiv (RtoC 1) (Cminus (zfC beta n) (RtoC (nth i [e1; e2] 0%R))) else RtoC 0.
 Proof. exact WickC.free_gf_diag_C. Qed.
 Print Assumptions free_gf_diag_C_partial.
+
+(** The Gibbs table used above is what the specification's weight function PV.EDSpec.weights computes for this
+    model (real ordering of energies, real exponential), for every real e1 e2 and every beta. *)
+Theorem weights_is_gibbs_M2 : forall (beta e1 e2 : R),
+  weights C CNumR (RtoC beta) (energies CSetting [RtoC e1; RtoC e2]) =
+  gibbs CSetting [RtoC (exp (- beta * e1)); RtoC (exp (- beta * e2))].
+Proof. exact WickC.weights_is_gibbs_2. Qed.
+Print Assumptions weights_is_gibbs_M2.
